@@ -128,7 +128,7 @@ func replayOne[C any](t *testing.T, rec *ev.Rec, path string, check func(C, *ev.
 }
 
 func replayDir[C any](t *testing.T, rec *ev.Rec, check func(C, *ev.Rec) *ev.Failure) {
-	if rec.Shard != 0 {
+	if rec.Shard != 0 || os.Getenv("VERIF_NO_REGRESS") != "" {
 		return
 	}
 	files, _ := filepath.Glob(filepath.Join(ev.Root(), "regress", rec.ID, "*.json"))
